@@ -11,6 +11,12 @@
 //     unary -, comparisons, && || !, == and != on booleans, conversions between integer types,
 //     parentheses, constants, and calls of other functions and methods of the package that stay inside the
 //     subset themselves (translated on demand, before their caller).
+//   - functions that return an error are rendered as the boolean "returns nil" (return nil = true, any other
+//     return = false;  if err := f(...); err != nil { ... }  tests the negation of f's boolean); a method on a
+//     slice of structs may contain ONE loop  for i, a := range aa { ... }  with break, x := aa[i+1], len(aa) and
+//     assignments to integer variables declared before it: the loop becomes a Fixpoint over the remaining
+//     elements (tuples of the fields in structFields) that carries index, length and the assigned variables.
+//     This is what ArchiveInfoList.validate needs.
 //     Every arithmetic result and every conversion is wrapped to the width of its Go type (u32, i32,
 //     u64, i64; int and uint are 64 bits wide); / and % are Z.quot and Z.rem.
 //     A receiver of struct type contributes the parameters listed in structFields.
@@ -42,6 +48,7 @@ var kernel = []string{
 	"ArchiveInfo.MaxRetention", "ArchiveInfo.pointIndex", "ArchiveInfo.pointOffsetAt",
 	"ArchiveInfo.interval", "ArchiveInfo.intervalForWrite",
 	"Header.Size",
+	"ArchiveInfo.validate", "ArchiveInfoList.validate",
 }
 
 type fakeImporter struct{ pkgs map[string]*types.Package }
@@ -86,6 +93,23 @@ type tr struct {
 	recvType string            // its type name
 	fields   map[string]string // field name -> parameter name, for the struct receiver
 	bools    map[string]bool   // local variables of type bool
+	structs  map[string]svar   // struct-valued variables (receiver, loop variable, locals): their fields
+	errMode  bool              // the function returns an error: rendered as the boolean "it returns nil"
+	loop     *loopCtx          // set while the body of the range loop is translated
+	slice    string            // name of a receiver of slice type, "" if none
+	fname    string            // the function being translated
+	pre      strings.Builder   // definitions to be written out before it (the Fixpoint of its loop)
+}
+
+type svar struct {
+	typ    string
+	fields map[string]string
+}
+
+type loopCtx struct {
+	index, rest string // the index variable, the Coq name of the remaining elements
+	after       string // what the statements behind the loop evaluate to
+	again       func() string
 }
 
 func wrapOf(t types.Type) string {
@@ -159,6 +183,18 @@ func (t *tr) expr(e ast.Expr) string {
 				return p
 			}
 		}
+		if id, ok := x.X.(*ast.Ident); ok {
+			if sv, ok := t.structs[id.Name]; ok {
+				if p, ok := sv.fields[x.Sel.Name]; ok {
+					return p
+				}
+			}
+			if id.Name == "math" {
+				if v, ok := map[string]string{"MaxInt32": "2147483647", "MaxUint32": "4294967295", "MaxInt64": "9223372036854775807", "MinInt32": "(-2147483648)"}[x.Sel.Name]; ok {
+					return v
+				}
+			}
+		}
 		fail("selector %s at %s", x.Sel.Name, t.fset.Position(e.Pos()))
 	case *ast.UnaryExpr:
 		switch x.Op {
@@ -192,6 +228,12 @@ func (t *tr) expr(e ast.Expr) string {
 			}
 			return wrap(wrapOf(tv.Type), t.expr(x.Args[0]))
 		}
+		if f, ok := x.Fun.(*ast.Ident); ok && f.Name == "len" && len(x.Args) == 1 {
+			if id, ok := x.Args[0].(*ast.Ident); ok && id.Name == t.slice && t.slice != "" {
+				return "v_len_" + id.Name
+			}
+			fail("len at %s", t.fset.Position(e.Pos()))
+		}
 		// call of another function or method of the package: translated on demand
 		var name string
 		var args []string
@@ -213,6 +255,10 @@ func (t *tr) expr(e ast.Expr) string {
 			} else if id, ok := f.X.(*ast.Ident); ok && id.Name == t.recv && t.recv != "" && n.Obj().Name() == t.recvType {
 				for _, fn := range structFields[t.recvType] {
 					args = append(args, t.fields[fn])
+				}
+			} else if id, ok := f.X.(*ast.Ident); ok && t.structs[id.Name].typ == n.Obj().Name() && structFields[n.Obj().Name()] != nil {
+				for _, fn := range structFields[n.Obj().Name()] {
+					args = append(args, t.structs[id.Name].fields[fn])
 				}
 			} else {
 				fail("method call on %s at %s", rt, t.fset.Position(e.Pos()))
@@ -275,6 +321,61 @@ func (t *tr) cond(e ast.Expr) string {
 	return ""
 }
 
+// bindStruct makes name a struct-valued variable whose fields are fresh Coq names; elemOf names the slice
+// whose element type it has.
+func (t *tr) bindStruct(name, elemOf string) svar {
+	sv := svar{typ: t.structs["["+elemOf+"]"].typ, fields: map[string]string{}}
+	for _, f := range structFields[sv.typ] {
+		sv.fields[f] = "e_" + name + "_" + f
+	}
+	t.structs[name] = sv
+	return sv
+}
+
+// rangeLoop translates  for i, a := range aa { body }  over the slice receiver aa, followed by the statements
+// rest, as a Fixpoint over the remaining elements that carries the index, the length and every integer
+// variable the body assigns; the Fixpoint is written out before the function itself.
+func (t *tr) rangeLoop(s *ast.RangeStmt, rest []ast.Stmt, indent string) string {
+	sl, ok := s.X.(*ast.Ident)
+	if !ok || sl.Name != t.slice || t.slice == "" || t.loop != nil || s.Tok != token.DEFINE {
+		fail("range statement at %s", t.fset.Position(s.Pos()))
+	}
+	key, ok1 := s.Key.(*ast.Ident)
+	val, ok2 := s.Value.(*ast.Ident)
+	if !ok1 || !ok2 || key.Name == "_" || val.Name == "_" {
+		fail("range statement at %s", t.fset.Position(s.Pos()))
+	}
+	after := t.stmts(rest, indent+"    ")
+	var accs []string
+	seen := map[string]bool{}
+	ast.Inspect(s.Body, func(n ast.Node) bool {
+		if as, ok := n.(*ast.AssignStmt); ok && as.Tok != token.DEFINE && len(as.Lhs) == 1 {
+			if id, ok := as.Lhs[0].(*ast.Ident); ok && !seen[id.Name] {
+				seen[id.Name] = true
+				accs = append(accs, "v_"+id.Name)
+			}
+		}
+		return true
+	})
+	fname := coqName(t.fname) + "_loop"
+	carried := append([]string{"v_" + key.Name, "v_len_" + t.slice}, accs...)
+	sv := t.bindStruct(val.Name, t.slice)
+	var names []string
+	for _, f := range structFields[sv.typ] {
+		names = append(names, sv.fields[f])
+	}
+	t.loop = &loopCtx{index: key.Name, rest: "rest", after: after, again: func() string {
+		return "(" + fname + " rest (i64 (v_" + key.Name + " + 1)) " + strings.Join(carried[1:], " ") + ")"
+	}}
+	body := t.stmts(s.Body.List, "    ")
+	t.loop = nil
+	delete(t.structs, val.Name)
+	tuple := strings.TrimSuffix(strings.Repeat("Z * ", len(names)), " * ")
+	fmt.Fprintf(&t.pre, "Fixpoint %s (rest0 : list (%s)) (%s : Z) {struct rest0} : bool :=\n  match rest0 with\n  | [] => %s\n  | (%s) :: rest =>\n    %s\n  end.\n",
+		fname, tuple, strings.Join(carried, " "), after, strings.Join(names, ", "), body)
+	return "(" + fname + " v_" + t.slice + " 0 " + strings.Join(carried[1:], " ") + ")"
+}
+
 // reassign translates x = e / x op= e on a local integer variable into the binding "v_x := e'".
 func (t *tr) reassign(s *ast.AssignStmt) string {
 	id, ok := s.Lhs[0].(*ast.Ident)
@@ -311,6 +412,8 @@ func terminates(stmts []ast.Stmt) bool {
 	switch s := stmts[len(stmts)-1].(type) {
 	case *ast.ReturnStmt:
 		return true
+	case *ast.BranchStmt:
+		return s.Tok == token.BREAK
 	case *ast.IfStmt:
 		if s.Else == nil {
 			return false
@@ -324,6 +427,9 @@ func terminates(stmts []ast.Stmt) bool {
 // stmts translates a statement list that ends in a return on every path.
 func (t *tr) stmts(l []ast.Stmt, indent string) string {
 	if len(l) == 0 {
+		if t.loop != nil {
+			return t.loop.again() // the end of the loop body: on to the next element
+		}
 		fail("a path without return")
 	}
 	switch s := l[0].(type) {
@@ -331,7 +437,20 @@ func (t *tr) stmts(l []ast.Stmt, indent string) string {
 		if len(s.Results) != 1 {
 			fail("return with %d results", len(s.Results))
 		}
+		if t.errMode {
+			if id, ok := s.Results[0].(*ast.Ident); ok && id.Name == "nil" {
+				return "true"
+			}
+			return "false"
+		}
 		return t.expr(s.Results[0])
+	case *ast.BranchStmt:
+		if s.Tok == token.BREAK && s.Label == nil && t.loop != nil {
+			return t.loop.after
+		}
+		fail("branch statement at %s", t.fset.Position(s.Pos()))
+	case *ast.RangeStmt:
+		return t.rangeLoop(s, l[1:], indent)
 	case *ast.AssignStmt:
 		if s.Tok != token.DEFINE && len(s.Lhs) == 1 && len(s.Rhs) == 1 {
 			// x = e, x += e, ... on a local integer variable: a new binding that shadows the old one
@@ -344,6 +463,24 @@ func (t *tr) stmts(l []ast.Stmt, indent string) string {
 		if !ok {
 			fail("assignment target at %s", t.fset.Position(s.Pos()))
 		}
+		if ix, isIx := s.Rhs[0].(*ast.IndexExpr); isIx && t.loop != nil {
+			// x := aa[i+1] inside the loop over aa: the element after the current one
+			sl, ok1 := ix.X.(*ast.Ident)
+			b, ok2 := ix.Index.(*ast.BinaryExpr)
+			if ok1 && ok2 && sl.Name == t.slice && b.Op == token.ADD {
+				iv, ok3 := b.X.(*ast.Ident)
+				if tv, ok4 := t.info.Types[b.Y]; ok3 && ok4 && iv.Name == t.loop.index && tv.Value != nil && tv.Value.ExactString() == "1" {
+					sv := t.bindStruct(id.Name, t.slice)
+					var names []string
+					for _, f := range structFields[sv.typ] {
+						names = append(names, sv.fields[f])
+					}
+					zeros := strings.TrimSuffix(strings.Repeat("0, ", len(names)), ", ")
+					return "let '(" + strings.Join(names, ", ") + ") := match " + t.loop.rest + " with nx :: _ => nx | [] => (" + zeros + ") end in\n" + indent + t.stmts(l[1:], indent)
+				}
+			}
+			fail("index expression at %s", t.fset.Position(s.Pos()))
+		}
 		if b, ok := t.typeOf(s.Rhs[0]).Underlying().(*types.Basic); ok && b.Info()&types.IsBoolean != 0 {
 			c := t.cond(s.Rhs[0])
 			t.bools[id.Name] = true
@@ -351,10 +488,25 @@ func (t *tr) stmts(l []ast.Stmt, indent string) string {
 		}
 		return "let v_" + id.Name + " := " + t.expr(s.Rhs[0]) + " in\n" + indent + t.stmts(l[1:], indent)
 	case *ast.IfStmt:
+		var c string
 		if s.Init != nil {
-			fail("if with init statement")
+			// if err := f(...); err != nil { ... }  with f rendered as the boolean "returns nil"
+			as, ok := s.Init.(*ast.AssignStmt)
+			b, ok2 := s.Cond.(*ast.BinaryExpr)
+			if !ok || !ok2 || as.Tok != token.DEFINE || len(as.Lhs) != 1 || len(as.Rhs) != 1 || b.Op != token.NEQ {
+				fail("if with init statement")
+			}
+			ev, ok3 := as.Lhs[0].(*ast.Ident)
+			cx, ok4 := b.X.(*ast.Ident)
+			cy, ok5 := b.Y.(*ast.Ident)
+			call, ok6 := as.Rhs[0].(*ast.CallExpr)
+			if !ok3 || !ok4 || !ok5 || !ok6 || cx.Name != ev.Name || cy.Name != "nil" || t.typeOf(call).String() != "error" {
+				fail("if with init statement")
+			}
+			c = "(negb " + t.expr(call) + ")"
+		} else {
+			c = t.cond(s.Cond)
 		}
-		c := t.cond(s.Cond)
 		if !terminates(s.Body.List) {
 			// if c { x = e } with nothing else in the body and no else: x := if c then e' else x
 			if s.Else != nil || len(s.Body.List) != 1 {
@@ -416,7 +568,8 @@ func (w *world) ensure(k string) (ok bool) {
 			panic(r)
 		}
 	}()
-	t := &tr{world: w, fields: map[string]string{}, bools: map[string]bool{}}
+	t := &tr{world: w, fields: map[string]string{}, bools: map[string]bool{}, structs: map[string]svar{}, fname: k}
+	sliceParam := ""
 	info, fset := w.info, w.fset
 	var params []string
 	if fd.Recv != nil {
@@ -441,6 +594,16 @@ func (w *world) ensure(k string) (ok bool) {
 			}
 		} else if isInteger(rt) {
 			params = append(params, "v_"+rname)
+		} else if sl, isSl := rt.Underlying().(*types.Slice); isSl {
+			// a slice of structs: a list of tuples of the fields listed in structFields
+			en, isN := sl.Elem().(*types.Named)
+			if !isN || structFields[en.Obj().Name()] == nil {
+				fail("receiver type %s", rt)
+			}
+			t.slice = rname
+			t.structs["["+rname+"]"] = svar{typ: en.Obj().Name()}
+			tuple := strings.TrimSuffix(strings.Repeat("Z * ", len(structFields[en.Obj().Name()])), " * ")
+			sliceParam = "(v_" + rname + " : list (" + tuple + "))"
 		} else {
 			fail("receiver type %s", rt)
 		}
@@ -453,14 +616,28 @@ func (w *world) ensure(k string) (ok bool) {
 			params = append(params, "v_"+n.Name)
 		}
 	}
-	if fd.Type.Results == nil || len(fd.Type.Results.List) != 1 || !isInteger(info.TypeOf(fd.Type.Results.List[0].Type)) {
+	if fd.Type.Results == nil || len(fd.Type.Results.List) != 1 {
+		fail("result is not one value")
+	}
+	resType := "Z"
+	if rt := info.TypeOf(fd.Type.Results.List[0].Type); rt.String() == "error" {
+		t.errMode, resType = true, "bool" // the boolean "it returns nil"
+	} else if !isInteger(rt) {
 		fail("result is not one integer")
 	}
-	if len(params) == 0 {
+	if len(params) == 0 && sliceParam == "" {
 		fail("no parameters")
 	}
 	body := t.stmts(fd.Body.List, "  ")
-	fmt.Fprintf(w.out, "(** %s, %s *)\nDefinition %s (%s : Z) : Z :=\n  %s.\n", k, fset.Position(fd.Pos()), coqName(k), strings.Join(params, " "), body)
+	sig := sliceParam
+	if len(params) > 0 {
+		sig += " (" + strings.Join(params, " ") + " : Z)"
+	}
+	if t.slice != "" {
+		body = "let v_len_" + t.slice + " := Z.of_nat (length v_" + t.slice + ") in\n  " + body
+	}
+	w.out.WriteString(t.pre.String())
+	fmt.Fprintf(w.out, "(** %s, %s *)\nDefinition %s %s : %s :=\n  %s.\n", k, fset.Position(fd.Pos()), coqName(k), strings.TrimSpace(sig), resType, body)
 	w.state[k] = 2
 	return true
 }
